@@ -7,6 +7,7 @@ import (
 	"crypto/cipher"
 	"encoding/json"
 	"fmt"
+	"os"
 	"testing"
 
 	"github.com/bilibili/smgo/sm4"
@@ -35,6 +36,11 @@ func c05pAlphabet(th bool, role string) [][]byte {
 	}
 	for i := 0; i < ns; i++ {
 		out = append(out, vx.Fill(fmt.Sprintf("c05p%s%d", role, i), 16))
+	}
+	if role == "k" {
+		// keys solved so that single round keys (and windows of them) are all-zero / all-one words
+		sk, _ := sm4ref.SpecialScheduleKeys(th)
+		out = append(out, sk...)
 	}
 	return out
 }
@@ -66,6 +72,56 @@ func c05pEval(r *vx.R, c c05pcase) {
 		return
 	}
 	ref := sm4ref.New(key)
+	if c.Op == "arena" {
+		// dst and src are slices of ONE buffer: every pair of 16-byte-aligned and unaligned offsets whose first blocks are
+		// disjoint or identical (cipher.Block: "Dst and src must overlap entirely or not at all"), as open-ended slices
+		// (running into each other beyond the first block) and as exact 16-byte slices
+		in := vx.UnHex(c.Block)
+		for _, dec := range []bool{false, true} {
+			want := ref.Encrypt(in)
+			if dec {
+				want = ref.Decrypt(in)
+			}
+			for _, a := range []int{0, 3, 16, 19, 32, 48} {
+				for _, b := range []int{0, 3, 16, 19, 32, 48} {
+					if a != b && a-b < 16 && b-a < 16 {
+						continue
+					}
+					for _, open := range []bool{true, false} {
+						r.Eval(1)
+						buf := vx.Fill("c05arena", 80)
+						copy(buf[b:], in)
+						before := append([]byte{}, buf...)
+						dst, src := buf[a:], buf[b:]
+						if !open {
+							dst, src = buf[a:a+16], buf[b:b+16]
+						}
+						name := fmt.Sprintf("dec=%v:dst@%d:src@%d:open=%v", dec, a, b, open)
+						kind, msg := vx.Try(func() {
+							if dec {
+								blk.Decrypt(dst, src)
+							} else {
+								blk.Encrypt(dst, src)
+							}
+						})
+						if kind != "" {
+							r.Violation("sm4:arena:panic", fmt.Sprintf("a legal call on two slices of one buffer panicked (%s): %s", name, msg), c)
+							continue
+						}
+						if !bytes.Equal(buf[a:a+16], want[:]) {
+							r.Violation("sm4:arena:wrong", fmt.Sprintf("%s: got %x want %x", name, buf[a:a+16], want), c)
+						}
+						copy(before[a:], want[:])
+						if !bytes.Equal(buf, before) {
+							r.Violation("sm4:arena:writes-outside-block", fmt.Sprintf("%s: bytes outside dst[:16] changed", name), c)
+						}
+					}
+				}
+			}
+		}
+		r.Shape("arena:" + c.Key[:8] + ":" + c.Block[:8])
+		return
+	}
 	if c.Op == "keyindep" {
 		// the cipher must not depend on the key slice after construction
 		for i := range key {
@@ -121,10 +177,10 @@ func c05pEval(r *vx.R, c c05pcase) {
 }
 
 func TestVX_C05_Public(t *testing.T) {
-	r := vx.Begin("C05", "block-public", "public Block API (whichever implementation NewCipher selects on this CPU): keys x blocks alphabet through Encrypt/Decrypt with dst!=src, dst==src and over-long slices; key slice overwritten after construction; NewCipher with every key length 0..64 (only 16 accepted). Oracle sm4ref")
+	r := vx.Begin("C05", c05part(), "public Block API (whichever implementation NewCipher selects on this CPU): keys x blocks alphabet through Encrypt/Decrypt with dst!=src, dst==src and over-long slices; dst and src cut from one 80-byte buffer at every pair of offsets {0,3,16,19,32,48} with disjoint or identical first blocks, open-ended and exact, Encrypt and Decrypt, bytes outside dst[:16] unchanged; key slice overwritten after construction; NewCipher with every key length 0..64 (only 16 accepted). Oracle sm4ref")
 	defer r.End()
 	selfCheck()
-	if raw, ok := vx.Replay("block-public"); ok {
+	if raw, ok := vx.Replay(c05part()); ok {
 		var c c05pcase
 		json.Unmarshal(raw, &c)
 		c05pEval(r, c)
@@ -150,6 +206,13 @@ func TestVX_C05_Public(t *testing.T) {
 		}
 		if vx.MineIdx(ki) {
 			c05pEval(r, c05pcase{"keyindep", vx.Hex(k), vx.Hex(blocks[ki%len(blocks)]), "plain"})
+		}
+	}
+	// dst and src cut from one buffer
+	for ki := 0; ki < len(keys); ki += 9 {
+		n++
+		if vx.MineIdx(n) {
+			c05pEval(r, c05pcase{"arena", vx.Hex(keys[ki]), vx.Hex(blocks[(ki+5)%len(blocks)]), "arena"})
 		}
 	}
 	// sequences on one key buffer: the caller refills (or wipes) the slice it passed to NewCipher and builds another cipher
@@ -191,4 +254,11 @@ func TestVX_C05_Public(t *testing.T) {
 			c05pEval(r, c05pcase{Op: "keylen", Key: vx.Hex(vx.Fill("c05keylen", l))})
 		}
 	}
+}
+
+func c05part() string {
+	if p := os.Getenv("VX_PART"); p != "" {
+		return p
+	}
+	return "block-public"
 }
